@@ -523,6 +523,21 @@ def check_C06(res, ctx):
                 "files d-merge", "dump", "keys", "stat", "close", engine.open_line("d", cfg), "dump", "close"]
         engine_history_check(res, ctx, "empty second merge %d" % i, ops)
         res.count("empty_second_merge_runs")
+    # an UNFINISHED leftover merge directory (a Merge that died right before writing its completion marker: the marker of a
+    # complete merge is removed), restart (the leftover is ignored), deletes and overwrites of keys the dead merge had rewritten,
+    # a second - successful - Merge, adopting restart: the second Merge must start from an empty merge directory, or the dead
+    # merge's output (its hint entries in particular) brings deleted keys back
+    for i in range(4 if ctx.quick else 40):
+        rng = rng_for(ctx.seed, "C06u", i)
+        cfg = engine.rand_cfg(rng, io=(1 if i % 4 == 3 else 0), fs=rng.choice([4096, 20000]))
+        g = engine.Gen(rng, cfg, nkeys=rng.choice([4, 6]), weights={"merge": 0, "reopen": 0, "batch": 10, "keys": 0, "fold": 0, "dump": 0, "stat": 0}, max_val=2500)
+        ops = g.history(30)[:-3]
+        ops += ["merge", "rmfile d-merge 000000000.merge-finished", "close", engine.open_line("d", cfg), "dump"]
+        gone = [k for j, k in enumerate(g.keys) if j % 2 == i % 2]
+        ops += ["del " + k.hex() for k in gone] + ["put %s p%d:%d" % (g.keys[-1].hex(), 77 + i, 300 + 100 * i)]
+        ops += ["merge", "close", engine.open_line("d", cfg), "files d-merge", "dump", "keys", "close", engine.open_line("d", cfg), "dump", "close"]
+        engine_history_check(res, ctx, "second merge over an unfinished leftover %d" % i, ops)
+        res.count("unfinished_leftover_runs")
     # direct checks on adoption: merge dir gone, no tombstones / sealing records in adopted files
     for i in range(8 if ctx.quick else 100):
         rng = rng_for(ctx.seed, "C06a", i)
@@ -1039,6 +1054,42 @@ def check_C17(res, ctx):
         probs = c17_oracle(ops, outs, lambda j: fs)
         if probs:
             res.violation("rotation-threshold sweep %d: %s" % (i, probs[0][1]), {"ops": ops[:probs[0][0] + 1]})
+    # one batch that stages a LARGE value, fills the file, stages that key AGAIN with the Put that no longer fits (capacity flush +
+    # rotation: the key is staged anew, the batch's size estimate starts over) and goes on with small records up to Commit
+    for i in range(6 if ctx.quick else 80):
+        rng = rng_for(ctx.seed, "C17b", i)
+        fs = rng.choice([16384, 65536])
+        ops = ["open d %d 0 0 %d 0 4" % (fs, 1 + i % 3), "bnew 0 %d" % (7001009 + 1009 * i)]
+        r1 = rng.randrange(fs // 10, fs // 2)
+        ops.append("bput 686f74 p1:%d" % r1)
+        staged, j = r1, 0
+        goal = rng.randrange(7 * fs // 10, fs)
+        while staged < goal:
+            n = rng.randrange(fs // 40, fs // 10)
+            ops.append("bput 66%02x p%d:%d" % (j, 2 + j, n))
+            staged += n
+            j += 1
+        r2 = r1 + rng.randrange(fs // 20, 2 * fs // 5)
+        ops.append(rng.choice(["bput 686f74 p99:%d" % r2] * 3 + ["bdel 686f74"]))
+        for k in range(rng.randrange(20, 60)):
+            ops.append("bput 67%02x p%d:%d" % (k, 100 + k, rng.randrange(fs // 64, fs // 20)))
+        ops += ["bcommit", "stat", "scanstat", "get 686f74", "close", "open d %d 0 0 %d 0 4" % (fs, 1 + i % 3), "stat", "scanstat", "close"]
+        base = ctx.scratch.fresh()
+        try:
+            outs = run_impl(ops, base)
+        finally:
+            ctx.scratch.drop(base)
+        res.case("b%d" % i + outs[-2], True)
+        res.count("batch_restage_sweeps")
+        probs = [(j, m) for j, m in engine.run_oracle(ops, outs).problems] + c17_oracle(ops, outs, lambda j: fs)
+        if probs:
+            res.violation("batch re-staging a key at the capacity flush, run %d: %s" % (i, sorted(probs)[0][1]), {"ops": ops, "problem": sorted(probs)[0][1]})
+            continue
+        d = diff_model(res, ctx, ops, outs, "C17 restage %d" % i)
+        if d is not None:
+            k, x, y = d
+            res.violation("correspondence broke on batch re-staging run %d at `%s`: code=%s model=%s" % (i, ops[k], x[:200], y[:200]),
+                          {"ops": ops[:k + 1], "code": x, "model": y, "correspondence": "engine line protocol (Stat)"}, no_input=True)
     return "histories mixing Put, overwrites, Delete, batches (incl. overwrites inside batches), rotations, merges and restarts; after every step " \
            "Stat is compared with a recomputation that scans all data files with the package's own reader: KeyNum, DataFileNum, 0 <= Reclaimable <= " \
            "DiskSize, DiskSize - Reclaimable = bytes of live records; every data file is within DataFileSize or holds a single record (+ sealing " \
